@@ -172,24 +172,38 @@ def user_subclass(M):
 
 def rating_subclass(RC, which=0):
     """a trivial application-side subclass of a rating class (a `Player(PlackettLuceRating)` that adds a field).  Two
-    siblings: 0 inherits the constructor, 1 has its OWN constructor signature (nick, mu, sigma) as application classes do.
+    siblings: 0 inherits the constructor, 1 has its OWN constructor signature (nick, mu, sigma) as application classes do,
+    2 is an ORM-style entity (property-backed mu/sigma, identity equality and hashing).
     Their instances ARE ratings of that model (isinstance).  Build instances with make_sub()."""
     key = (RC, which)
     if key not in _SUBCLASSES:
         if which == 0:
             _SUBCLASSES[key] = type("AppPlayer", (RC,), {"team_colour": "red"})
-        else:
+        elif which == 1:
             def __init__(self, nick, mu, sigma, _RC=RC):
                 _RC.__init__(self, mu, sigma, nick)
                 self.nick = nick
 
             _SUBCLASSES[key] = type("AppBot", (RC,), {"team_colour": "blue", "__init__": __init__})
+        if which == 2:
+            # an ORM-style entity: mu and sigma are properties backed by a history list (every assignment is kept), and
+            # identity decides equality and hashing (two rows are the same player only if they are the same object)
+            def __init__(self, mu, sigma, name=None, _RC=RC):  # noqa: F811
+                self._mu_hist, self._sigma_hist = [], []
+                _RC.__init__(self, mu, sigma, name)
+
+            ns = {"__init__": __init__,
+                  "mu": property(lambda self: self._mu_hist[-1], lambda self, v: self._mu_hist.append(v)),
+                  "sigma": property(lambda self: self._sigma_hist[-1], lambda self, v: self._sigma_hist.append(v)),
+                  "__eq__": lambda self, other: self is other, "__ne__": lambda self, other: self is not other,
+                  "__hash__": lambda self: object.__hash__(self)}
+            _SUBCLASSES[key] = type("AppEntity", (RC,), ns)
     return _SUBCLASSES[key]
 
 
 def make_sub(RC, which, mu, sigma, name=None):
     C = rating_subclass(RC, which)
-    return C(mu, sigma, name) if which == 0 else C(name, mu, sigma)
+    return C(name, mu, sigma) if which == 1 else C(mu, sigma, name)
 
 
 FLAVOURS = ["listsub", "modelsub", "extras", "listsub+modelsub", "ratingsub", "ratingsub"]
@@ -224,12 +238,10 @@ def build(case, Ms=None):
         # players are instances of an application-side SUBCLASS of the model's rating class (every other one, so that games
         # mix plain and subclass objects); ids are fresh and unique as for any constructed rating
         RC = type(teams[0][0])
-        n = 0
-        for t in teams:
+        for i, t in enumerate(teams):
             for j, p in enumerate(t):
-                n += 1
-                if n % 2:
-                    q = make_sub(RC, n % 4 // 2, p.mu, p.sigma, p.name)
+                if (i + j) % 2 == 0:
+                    q = make_sub(RC, (len(teams) + i + j) % 3, p.mu, p.sigma, p.name)
                     if case.get("ids") == "shared":
                         q.id = p.id
                     t[j] = q
